@@ -182,13 +182,14 @@ QUICK = {
     'all-cached': sh(cached=['S1', 'T1', 'A1']),
     'srv-cached-address-arrives': sh(cached=['S1', 'T1'], arrivals=[['A1']]),
     'nothing-cached-all-arrive': sh(arrivals=[['S1', 'T1', 'A1']]),
-    'srv-then-address': sh(arrivals=[['S1', 'T1'], ['A1']]),
     'address-then-srv': sh(arrivals=[['A1'], ['S1']]),
     'address-cached-srv-arrives': sh(cached=['A1'], arrivals=[['S1']]),
     'forced-qm': sh(question_type=DNSQuestionType.QM, arrivals=[['S1', 'A1']]),
     'forced-qu': sh(question_type=DNSQuestionType.QU),
 }
 THOROUGH = {
+    'srv-then-address': sh(arrivals=[['S1', 'T1'], ['A1']]),
+    'address-before-srv-same-datagram': sh(arrivals=[['A1', 'S1']]),
     'two-addresses-cached': sh(cached=['S1', 'A1', 'A2', 'AAAA1']),
     'srv-cached-two-arrivals': sh(cached=['S1'], arrivals=[['T1'], ['AAAA1']]),
     'srv-update-arrives': sh(cached=['S1', 'A1'], arrivals=[['S1b']]),
